@@ -546,3 +546,7 @@ class _:
             S.term(stream.pos, 'int') >= ghost.pos_entry, S.term(stream.pos, 'int') <= ops.blen(S.term(stream.buf)))),
         'allocations-bounded-by-the-input': lambda stream, events: allocations_bounded(stream, events),
     }
+
+
+# ---- the persistent-storage registry reader (used by load_persistant): the same hostile-bytes contract as the container readers
+hostile_contract('deserialize_registry', 1)
